@@ -1,16 +1,16 @@
 CONSTANTS
-  Names = {"S", "C", "K", "R", "P"}
+  Names = {"S", "C", "R", "P"}
   Proposer = "P"
   Sender = "S"
   Target = "C"
   Other = "K"
   Rcpt = "R"
-  AmtVals = {0, 1, 2}
-  GasVals = {0, 1, 3}
-  MaxSteps = 2
-  MaxDepth = 1
-  MaxTx = 1
-  Bug = "no_sub_refund"
+  AmtVals = {0, 1}
+  GasVals = {2}
+  MaxSteps = 1
+  MaxDepth = 0
+  MaxTx = 2
+  Bug = "stale_env"
   ExportOn = FALSE
 INIT Init
 NEXT Next
